@@ -742,8 +742,79 @@ func c10Scenario(extra []string, setCookies []string, firstPath string) vx.Scena
 		}}
 }
 
+// c10Concurrent: after a first request that creates the session, a plain request and a shim open request
+// of that session (and a request of a fresh client) are in flight at once: the session table is shared by
+// the handler around the reverse proxy and the one the shim uses for open requests.
+func c10Concurrent(pb int) vx.Scenario {
+	return vx.Scenario{Name: "c10/agent/concurrent plain + shim open + fresh client", PB: pb, Delay: true, MaxSteps: 50000, MaxTime: time.Minute,
+		Setup: func(s *vs.Sched) func(*vs.Result) vx.Exec {
+			w := newWorld(s)
+			session := func() string {
+				u := w.uploadFor("a")
+				if u == nil {
+					return ""
+				}
+				raw := string(u.raw)
+				i := strings.Index(raw, "Set-Cookie: sess=")
+				if i < 0 {
+					return ""
+				}
+				v := raw[i+len("Set-Cookie: sess="):]
+				if j := strings.IndexAny(v, ";\r"); j >= 0 {
+					v = v[:j]
+				}
+				return v
+			}
+			w.lists = []listReply{{ids: []string{"a"}}, {ids: []string{"b", "c", "d"}, after: "a"}}
+			w.fetch["a"] = &fetchPlan{req: "GET /login HTTP/1.1\r\nHost: client.example\r\nX-Tok: a\r\n\r\n"}
+			w.backend["a"] = &backendPlan{header: http.Header{"Set-Cookie": {"tok=1"}}}
+			w.fetch["b"] = &fetchPlan{reqFn: func() string {
+				return fmt.Sprintf("GET /page HTTP/1.1\r\nHost: client.example\r\nX-Tok: b\r\nCookie: sess=%s\r\n\r\n", session())
+			}}
+			w.fetch["c"] = &fetchPlan{reqFn: func() string {
+				target := "ws://client.example/socket-c"
+				return fmt.Sprintf("POST /websocket-shim/open HTTP/1.1\r\nHost: client.example\r\nX-Tok: c\r\nCookie: sess=%s\r\nContent-Length: %d\r\n\r\n%s", session(), len(target), target)
+			}}
+			w.fetch["d"] = &fetchPlan{req: "GET /other HTTP/1.1\r\nHost: client.example\r\nX-Tok: d\r\n\r\n"}
+			w.startAgent("--session-cookie-name=sess", "--shim-websockets", "--shim-path=websocket-shim")
+			return func(r *vs.Result) vx.Exec {
+				var x vx.Exec
+				baseViolations(r, &x)
+				if r.Exited {
+					x.Violations = append(x.Violations, fmt.Sprintf("EXIT: agent exited (code %d)", r.ExitCode))
+				}
+				var obs []string
+				for _, c := range w.calls {
+					ck := c.header.Get("Cookie")
+					obs = append(obs, c.tok+":"+ck)
+					if c.tok == "b" && ck != "tok=1" {
+						x.Violations = append(x.Violations, fmt.Sprintf("BACKENDCOOKIES: the session's plain request reached the backend with Cookie %q, the session holds tok=1", ck))
+					}
+					if c.tok == "d" && ck != "" {
+						x.Violations = append(x.Violations, fmt.Sprintf("MIXED: a fresh client's request reached the backend with Cookie %q", ck))
+					}
+				}
+				for _, d := range w.ws.Dials {
+					ck := d.Header.Get("Cookie")
+					obs = append(obs, "open:"+ck)
+					if ck != "tok=1" {
+						x.Violations = append(x.Violations, fmt.Sprintf("BACKENDCOOKIES: the session's websocket handshake carried Cookie %q, the session holds tok=1", ck))
+					}
+				}
+				sort.Strings(obs)
+				x.Obs = strings.Join(obs, " ")
+				return x
+			}
+		}}
+}
+
 func c10Scenarios(th bool) []vx.Scenario {
 	var out []vx.Scenario
+	cpb := 2
+	if th {
+		cpb = 3
+	}
+	out = append(out, c10Concurrent(cpb))
 	sets := [][]string{
 		{"tok=1; Path=/app"},
 		{"tok=1"},
